@@ -546,17 +546,16 @@ pub fn finish(
     let mut exit = 0;
     let mut reported = Vec::new();
     let mut known_hits = Vec::new();
+    let mut not_reproduced: Vec<String> = Vec::new();
     let dir = format!("{}/replays/{}", verif_dir(), meta.prop);
     let _ = std::fs::remove_dir_all(&dir);
     let viols: Vec<Violation> = acc.violations.values().cloned().collect();
     for v in &viols {
         let again = recheck(&v.case);
         if !again.iter().any(|s| s == &v.sig) {
-            eprintln!(
-                "MACHINERY-ERROR: violation sig={} did not reproduce on re-execution (got {:?}); case={}",
-                v.sig, again, v.case
-            );
-            return 2;
+            // not believed; a machinery error unless other violations of this run do reproduce (then: a note)
+            not_reproduced.push(format!("sig={} did not reproduce on re-execution (got {:?}); case={}", v.sig, again, v.case.to_string().chars().take(600).collect::<String>()));
+            continue;
         }
         if let Some(d) = known.lookup(meta.prop, &v.sig) {
             println!("KNOWN-FINDING: property={} sig={} {}", meta.prop, v.sig, d);
@@ -577,6 +576,17 @@ pub fn finish(
         println!("  sig={}  {}", v.sig, v.desc);
         reported.push(v.sig.clone());
         exit = 1;
+    }
+    if !not_reproduced.is_empty() {
+        if reported.is_empty() && known_hits.is_empty() {
+            for n in &not_reproduced {
+                eprintln!("MACHINERY-ERROR: violation {}", n);
+            }
+            return 2;
+        }
+        for n in &not_reproduced {
+            acc.notes.push(format!("not reported (not believed): violation {}", n));
+        }
     }
     if acc.outcomes.len() >= OUTCOME_CAP {
         acc.notes.push(format!("distinct-outcome counting stopped at {} entries (the reported distinct counts are lower bounds; does not affect exhaustiveness)", OUTCOME_CAP));
